@@ -293,6 +293,9 @@ class C01(Property):
         "(the event list of the model); Python's sorted() is a stable sort (List.mergeSort); dict insertion order",
         "harness/sfv/rt/stepdrive.py imposes the arrival order using asyncio.Queue._getters (CPython 3.12 private attribute)",
     ]
+    trusted_base = trusted_base + [
+        "harness/sfv/rt/loop_safe.py: shuffling event loop whose reordering of ready handles is safe against call_soon_threadsafe "
+        "(the shared rt/loop.py drops handles appended by the aiosqlite thread while it shuffles)"]
     technique = ("Lean 4 theorems about an executable model of ScatterStep._scatter / GatherStep.run (any arrival order, any length, several keys, "
                  "depth parameter, nesting, forced gathering) + ast translator of the guards + differential correspondence on the real step classes")
     level_text = ("grade A: unbounded theorems — scatter tags, uniqueness of the compare_tags-sorted permutation (0.10 after 0.9 proved), gather of any "
